@@ -642,6 +642,33 @@ static void famPca(Rng& r, Ctx& c, bool maf)
   if (!(ev[0] > 0) || kappa > 1e12) { c.skip("pca:ill-conditioned"); return; }
 
   PCA pca;
+  // One case in three: the PCA object has already been fitted on ANOTHER data set with the same number of variables
+  // (larger values, other correlations). The property speaks of "every fitted transform": a second fit of the same object
+  // must not remember the first one. Drawn from a stream of its own so that the other draws of the case are unchanged.
+  if (c.icase % 3 == 1)
+  {
+    Rng r2(c.seed, "C18prefit", (uint64_t)c.icase);
+    int n0 = 40 + 5 * nvar;
+    std::unique_ptr<Db> db0(Db::create());
+    for (int d = 0; d < ndim; d++)
+    {
+      VectorDouble xx(n0);
+      for (auto& v : xx) v = r2.uni(0, 100);
+      db0->addColumns(xx, "x" + std::to_string(d + 1), ELoc::X, d);
+    }
+    VectorDouble common(n0);
+    for (auto& v : common) v = r2.normal();
+    for (int v = 0; v < nvar; v++)
+    {
+      VectorDouble zz(n0);
+      double sv = sc[v] * r2.uni(20., 60.);
+      for (int i = 0; i < n0; i++) zz[i] = off[v] + sv * (0.8 * common[i] + 0.6 * r2.normal());
+      db0->addColumns(zz, "v" + std::to_string(v + 1), ELoc::Z, v);
+    }
+    int e0 = maf ? pca.maf_compute_interval(db0.get(), 5., 40.) : pca.pca_compute(db0.get());
+    (void)e0;
+    c.probe(maf ? "maf-refit" : "pca-refit");
+  }
   double hmin = 0, hmax = 0;
   int err;
   std::vector<std::pair<int, int>> pairs;
